@@ -72,7 +72,16 @@ impl MsgSpec {
 #[derive(Clone, Debug, Serialize, Deserialize)]
 pub enum Case {
     /// all kinds in [from, to) of the build-time list at one site with one message
-    Sweep { from: usize, to: usize, site: Site, msg: MsgSpec },
+    Sweep {
+        from: usize,
+        to: usize,
+        site: Site,
+        msg: MsgSpec,
+        /// which legal handshake response opened the connection: 0 = the usual 4.1 one,
+        /// 1 = pre-4.1 layout, 2.. = 4.1 layout with capability mask `hs` (PROTOCOL_41 forced)
+        #[serde(default)]
+        hs: u32,
+    },
     /// table checks: From<u16> round trip, SQLSTATE shape, curated pairs, reference tables
     Tables,
 }
@@ -186,7 +195,7 @@ impl Prop for C13 {
         "C13"
     }
     fn rule(&self) -> String {
-        format!("cases = (a) sweeps: a contiguous slice of the {} ErrorKind variants (list re-read from src/errorcodes.rs at build time) x one of 17 reporting sites (query error first; after complete_one; after a finished set; finish_error after 0/3 text rows and 0/2 binary rows, and with the last row still open (write_col without end_row) in both protocols; execute error; prepare error; COM_INIT_DB error; `USE` error; query error / finish_error after which the shim returns Err from the callback - the ERR must still have been handed to the transport) x one message (empty, ASCII, arbitrary bytes, 250-400 bytes, 65535/70000 bytes, containing '#', NUL, 0xFF); the quick tier enumerates every kind at a rotating site and every site; (b) table checks: ErrorKind::from(k as u16) == k for every variant, SQLSTATE is 5 bytes of [0-9A-Z], curated well-known (code, SQLSTATE) pairs, the (name, code) table extracted from the mysql crate, and a pinned snapshot of the whole SQLSTATE table (a change detector, stated as such). Oracle: the ERR packet decodes (own decoder + mysql_common::ErrPacket) to code = kind as u16, marker '#', state = kind.sqlstate(), identical message bytes. Non-trivial = a site other than 'query error first', or a non-ASCII/long message.", ERROR_KINDS.len())
+        format!("cases = (a) sweeps: a contiguous slice of the {} ErrorKind variants (list re-read from src/errorcodes.rs at build time) x one of 17 reporting sites (query error first; after complete_one; after a finished set; finish_error after 0/3 text rows and 0/2 binary rows, and with the last row still open (write_col without end_row) in both protocols; execute error; prepare error; COM_INIT_DB error; `USE` error; query error / finish_error after which the shim returns Err from the callback - the ERR must still have been handed to the transport) x the handshake response that opened the connection (usual 4.1, pre-4.1 layout, 4.1 with a random capability mask) x one message (empty, ASCII, arbitrary bytes, 250-400 bytes, 65535/70000 bytes, containing '#', NUL, 0xFF); the quick tier enumerates every kind at a rotating site and every site; (b) table checks: ErrorKind::from(k as u16) == k for every variant, SQLSTATE is 5 bytes of [0-9A-Z], curated well-known (code, SQLSTATE) pairs, the (name, code) table extracted from the mysql crate, and a pinned snapshot of the whole SQLSTATE table (a change detector, stated as such). Oracle: the ERR packet decodes (own decoder + mysql_common::ErrPacket) to code = kind as u16, marker '#', state = kind.sqlstate(), identical message bytes. Non-trivial = a site other than 'query error first', or a non-ASCII/long message.", ERROR_KINDS.len())
     }
     fn exhaustive_note(&self, _tier: Tier) -> Option<String> {
         Some("all ErrorKind variants (each at >= 1 site), all 17 sites; thorough: all variants x all sites".into())
@@ -204,13 +213,18 @@ impl Prop for C13 {
         let n = ERROR_KINDS.len();
         let from = g.below(n as u64) as usize;
         let to = (from + g.usize_in(1, 6)).min(n);
-        Case::Sweep { from, to, site: *g.pick(&SITES), msg: gen_msg(g) }
+        let hs = match g.weighted(&[5, 2, 1]) {
+            0 => 0,
+            1 => 1,
+            _ => g.raw() | 2,
+        };
+        Case::Sweep { from, to, site: *g.pick(&SITES), msg: gen_msg(g), hs }
     }
     fn fixed(&self, tier: Tier) -> Vec<Case> {
         let mut v = vec![Case::Tables];
         // a message that makes the ERR packet exactly one wire packet / one byte more
-        v.push(Case::Sweep { from: 45, to: 46, site: Site::QueryFirst, msg: MsgSpec::Pat { seed: 5, len: MAX_PAYLOAD - 9 } });
-        v.push(Case::Sweep { from: 46, to: 47, site: Site::FinishErrorBin(2), msg: MsgSpec::Pat { seed: 6, len: MAX_PAYLOAD - 8 } });
+        v.push(Case::Sweep { from: 45, to: 46, site: Site::QueryFirst, msg: MsgSpec::Pat { seed: 5, len: MAX_PAYLOAD - 9 }, hs: 0 });
+        v.push(Case::Sweep { from: 46, to: 47, site: Site::FinishErrorBin(2), msg: MsgSpec::Pat { seed: 6, len: MAX_PAYLOAD - 8 }, hs: 0 });
         let n = ERROR_KINDS.len();
         let chunk = 16;
         match tier {
@@ -219,7 +233,7 @@ impl Prop for C13 {
                 let mut i = 0;
                 let mut k = 0;
                 while i < n {
-                    v.push(Case::Sweep { from: i, to: (i + chunk).min(n), site: SITES[k % SITES.len()], msg: MsgSpec::Lit(format!("msg {}", k).into_bytes()) });
+                    v.push(Case::Sweep { from: i, to: (i + chunk).min(n), site: SITES[k % SITES.len()], msg: MsgSpec::Lit(format!("msg {}", k).into_bytes()), hs: (k % 3) as u32 });
                     i += chunk;
                     k += 1;
                 }
@@ -234,7 +248,7 @@ impl Prop for C13 {
                                 1 => MsgSpec::Lit(b"a#b\x00c\xffd error".to_vec()),
                                 _ => MsgSpec::Pat { seed: (si * 1000 + i) as u32, len: 300 },
                             };
-                            v.push(Case::Sweep { from: i, to: (i + chunk).min(n), site: *site, msg });
+                            v.push(Case::Sweep { from: i, to: (i + chunk).min(n), site: *site, msg, hs: m as u32 });
                         }
                         i += chunk;
                     }
@@ -304,8 +318,13 @@ impl Prop for C13 {
                 ex.count("kinds_agreeing_with_mysql_crate_table", agree_ref);
                 ex.count("kinds_in_pinned_snapshot", snapshot.len() as u64);
             }
-            Case::Sweep { from, to, site, msg } => {
+            Case::Sweep { from, to, site, msg, hs } => {
                 let msg = msg.get();
+                ex.class(match hs {
+                    0 => "handshake:4.1-usual",
+                    1 => "handshake:pre-4.1",
+                    _ => "handshake:4.1-random-mask",
+                });
                 ex.class(format!("site:{:?}", site));
                 ex.nontrivial = *site != Site::QueryFirst || msg.len() > 250 || !msg.is_ascii();
                 if msg.len() > 250 {
@@ -315,7 +334,12 @@ impl Prop for C13 {
                     ex.class("non-ascii-message");
                 }
                 for (name, code) in &ERROR_KINDS[*from..*to] {
-                    let (conv, idx) = conv_for(*site, *code, &msg);
+                    let (mut conv, idx) = conv_for(*site, *code, &msg);
+                    match hs {
+                        0 => {}
+                        1 => conv.hs.kind = HsKind::V320 { caps: 0x0005, max_packet: 0xff_ffff, user: b"old".to_vec(), tail: vec![0] },
+                        m => conv.hs.kind = HsKind::V41 { caps: (*m | CAP_PROTOCOL_41) & !CAP_SSL, max_packet: 1 << 24, charset: 0x21, user: b"verif".to_vec(), tail: vec![0] },
+                    }
                     let o = run_with(&conv, None, false);
                     ex.count("error_reports_checked", 1);
                     let fatal = matches!(site, Site::QueryThenFatal | Site::FinishErrorThenFatal(_));
